@@ -1231,6 +1231,8 @@ def _read_bipartite_kthlist(inputfile):
         # after vertices, add the edges
         edges[left] = right
 
+        previous = left
+
     # fix the bipartition
     # unsassigned vertices go to the right size
     L = bipartition_ambiguous[0]-1
